@@ -76,6 +76,60 @@ class Ledger:
             child, p = p, getattr(p, "_parent", None)
         return out
 
+    def known_true(self, node, want):
+        """is the (positive) test text `want` known to hold at `node`?  From the tests of the enclosing ifs / and-chains and
+        from earlier `if T: raise / return` statements of the enclosing blocks (after them T is false): literals are compared
+        in positive form (`x not in y` = not `x in y`), a negated conjunction is a clause and is resolved by unit propagation."""
+        def lit(e, truth=True):
+            while isinstance(e, ast.UnaryOp) and isinstance(e.op, ast.Not):
+                e, truth = e.operand, not truth
+            if isinstance(e, ast.Compare) and len(e.ops) == 1 and isinstance(e.ops[0], (ast.NotIn, ast.IsNot, ast.NotEq)):
+                flip = {ast.NotIn: ast.In, ast.IsNot: ast.Is, ast.NotEq: ast.Eq}[type(e.ops[0])]
+                e = ast.Compare(left=e.left, ops=[flip()], comparators=e.comparators)
+                truth = not truth
+            return norm(e), truth
+        units, clauses = {}, []
+
+        def assume(test, truth):
+            if isinstance(test, ast.UnaryOp) and isinstance(test.op, ast.Not):
+                return assume(test.operand, not truth)
+            if isinstance(test, ast.BoolOp) and (isinstance(test.op, ast.And) == truth):
+                for v in test.values:
+                    assume(v, truth)
+                return
+            if isinstance(test, ast.BoolOp):
+                # a false conjunction / a true disjunction: at least one operand has the required value
+                clauses.append([lit(v, truth) for v in test.values if not isinstance(v, ast.BoolOp)])
+                return
+            t, b = lit(test, truth)
+            units[t] = b
+        for t, in_body in self.enclosing_tests(node):
+            assume(t, in_body)
+        child, p = node, getattr(node, "_parent", None)
+        while p is not None and not isinstance(p, (ast.FunctionDef, ast.AsyncFunctionDef)):
+            for fld in ("body", "orelse", "finalbody"):
+                seq = getattr(p, fld, None)
+                if isinstance(seq, list) and any(child is x for x in seq):
+                    for st in seq[:[child is x for x in seq].index(True)]:
+                        if isinstance(st, ast.If) and not st.orelse and st.body and isinstance(st.body[-1], (ast.Raise, ast.Return, ast.Continue, ast.Break)):
+                            assume(st.test, False)
+            child, p = p, getattr(p, "_parent", None)
+        if p is not None:
+            for st in p.body[:[child is x for x in p.body].index(True)] if any(child is x for x in p.body) else []:
+                if isinstance(st, ast.If) and not st.orelse and st.body and isinstance(st.body[-1], (ast.Raise, ast.Return)):
+                    assume(st.test, False)
+        changed = True
+        while changed:
+            changed = False
+            for cl in clauses:
+                open_ = [(t, b) for t, b in cl if units.get(t) is None]
+                if any(units.get(t) == b for t, b in cl):
+                    continue
+                if len(open_) == 1:
+                    units[open_[0][0]] = open_[0][1]
+                    changed = True
+        return units.get(want) is True
+
     # ------------------------------------------------------------------ discharge rules
     def discharge(self, s: Site):
         L, roles = self.L, self.roles
@@ -222,7 +276,8 @@ class Ledger:
                 return ("tables", "C20-T4: _selected_by keys = field names, so the selected member exists") if ok else None
             if s.kind == "idiom:subscript-selection":
                 key = norm(n.slice)
-                if any(b and norm(t) == f"{key} in selection" for t, b in self.enclosing_tests(n)):
+                if any(b and norm(t) == f"{key} in selection" for t, b in self.enclosing_tests(n)) or \
+                        self.known_true(n, f"{key} in selection"):
                     return "guarded", f"guarded by `{key} in selection`"
             if s.kind == "raise" and s.cls == "AssertionError":
                 if self.mode == "strict":
